@@ -26,29 +26,29 @@ def dNumberDensity : Dim := { length := -3 }
 /-- energy per area per time -/
 def dFlux : Dim := { mass := 1, time := -3 }
 
-/-! the physical constants: (attribute of `unyt.physical_constants`, dimension, value in SI) -/
+/-! the physical constants: (row of the library's `physical_constants` table, dimension, value in SI) -/
 def constants : List (String × Dim × Rat) := [
   -- Boltzmann constant, J/K
-  ("kboltz", { mass := 1, length := 2, time := -2, temperature := -1 }, 1380649 / 10^29),
+  ("kb", { mass := 1, length := 2, time := -2, temperature := -1 }, 1380649 / 10^29),
   -- speed of light, m/s (exact)
-  ("clight", { length := 1, time := -1 }, 299792458),
+  ("c", { length := 1, time := -1 }, 299792458),
   -- Planck constant, J s
-  ("h_mks", { mass := 1, length := 2, time := -1 }, 662607015 / 10^42),
+  ("h", { mass := 1, length := 2, time := -1 }, 662607015 / 10^42),
   -- Newtonian constant of gravitation, m³/(kg s²)
   ("G", { mass := -1, length := 3, time := -2 }, 66743 / 10^15),
   -- mass of the hydrogen atom, kg
   ("mh", { mass := 1 }, 16735 / 10^31),
   -- Stefan–Boltzmann constant, W/(m² K⁴)
-  ("stefan_boltzmann_constant_mks", { mass := 1, time := -3, temperature := -4 }, 5670374 / 10^14)
+  ("σ", { mass := 1, time := -3, temperature := -4 }, 5670374 / 10^14)
 ]
 
 private def x : Formula := .atom "x"
-private def kB : Formula := .atom "c.kboltz"
-private def c : Formula := .atom "c.clight"
-private def h : Formula := .atom "c.h_mks"
+private def kB : Formula := .atom "c.kb"
+private def c : Formula := .atom "c.c"
+private def h : Formula := .atom "c.h"
 private def G : Formula := .atom "c.G"
 private def mH : Formula := .atom "c.mh"
-private def σ : Formula := .atom "c.stefan_boltzmann_constant_mks"
+private def σ : Formula := .atom "c.σ"
 private def μ : Formula := .atom "p.mu"
 private def γ : Formula := .atom "p.gamma"
 private def one : Formula := .lit 1
@@ -126,9 +126,9 @@ def lookup (equiv : String) (a b : Dim) : Option Formula :=
     The reference is a *shape*: the outer skeleton literally, the monomial parts up to normal
     form (so `(x/c)·(x/c)` and `x²/c²` are the same). -/
 
-def lorentzBeta2 : Mono := ⟨1, [("c.clight", -2), ("x", 2)]⟩
+def lorentzBeta2 : Mono := ⟨1, [("c.c", -2), ("x", 2)]⟩
 def lorentzInvGamma2 : Mono := ⟨1, [("x", -2)]⟩
-def lorentzC : Mono := ⟨1, [("c.clight", 1)]⟩
+def lorentzC : Mono := ⟨1, [("c.c", 1)]⟩
 
 /-- `1 / sqrt(1 − B)` with `B ≡ x²/c²` -/
 def gammaShape : Formula → Bool
